@@ -1,19 +1,35 @@
 /- GENERATED: instance obligations for one logic, discharged by kernel evaluation.
-   `X ⊆ known`: every failing row is a committed known finding (Ptx/Gen/Known.lean). -/
+   `S` = the logic with its DOCUMENTED tables (Ptx/Sem/Spec.lean); rules, closure, trunk and frames
+   are what the translator read off the code.  `X ⊆ known`: every failing row is a committed
+   known finding (Ptx/Gen/Known.lean, generated from known_findings.json). -/
 import Ptx.Gen.L_CFOL
 import Ptx.Gen.Known
 import Ptx.Sem.Subset
+import Ptx.Props.C01
+import Ptx.Gen.L_CPL
 namespace Ptx.Gen.Obl.CFOL
 open Ptx
 
-theorem tables_total : Gen.CFOL.tablesTotalB = true := by decide +kernel
-theorem rules_exact : subsetB Gen.CFOL.badRules (Known.badRules "CFOL") = true := by decide +kernel
-theorem rules_sound : subsetB Gen.CFOL.unsoundRules (Known.unsoundRules "CFOL") = true := by decide +kernel
-theorem rules_total : subsetB Gen.CFOL.missingRules (Known.missingRules "CFOL") = true := by decide +kernel
-theorem rules_local : Gen.CFOL.nonLocalRules = [] := by decide +kernel
-theorem closure_total : Gen.CFOL.closureTotalB = true := by decide +kernel
-theorem closure_exact : subsetB Gen.CFOL.badClosure (Known.badClosure "CFOL") = true := by decide +kernel
-theorem read_total : Gen.CFOL.readTotalB = true := by decide +kernel
-theorem read_exact : subsetB Gen.CFOL.badRead (Known.badRead "CFOL") = true := by decide +kernel
+/-- a modal / first-order extension has exactly the truth-functional tables of its base (CPL) -/
+theorem base_tables : Gen.CFOL.tables.sameTF Gen.CPL.tables = true := by decide +kernel
+theorem spec_defined : Gen.CFOL.specDefinedB = true := by decide +kernel
+theorem tables_spec : subsetB Gen.CFOL.tableDiff (Known.tableDiff "CFOL") = true := by decide +kernel
+theorem defined_ops : Gen.CFOL.tables.definedOpsBad = [] := by decide +kernel
+theorem tables_total : Gen.CFOL.sem.tablesTotalB = true := by decide +kernel
+theorem rules_exact : subsetB Gen.CFOL.sem.badRules (Known.badRules "CFOL") = true := by decide +kernel
+theorem rules_sound : subsetB Gen.CFOL.sem.unsoundRules (Known.unsoundRules "CFOL") = true := by decide +kernel
+theorem rules_total : subsetB Gen.CFOL.sem.missingRules (Known.missingRules "CFOL") = true := by decide +kernel
+theorem rules_local : Gen.CFOL.sem.nonLocalRules = [] := by decide +kernel
+theorem closure_total : Gen.CFOL.sem.closureTotalB = true := by decide +kernel
+theorem closure_exact : subsetB Gen.CFOL.sem.badClosure (Known.badClosure "CFOL") = true := by decide +kernel
+theorem read_total : Gen.CFOL.sem.readTotalB = true := by decide +kernel
+theorem read_exact : subsetB Gen.CFOL.sem.badRead (Known.badRead "CFOL") = true := by decide +kernel
+theorem sound_core : Gen.CFOL.sem.soundCoreB = true := by decide +kernel
+
+/-- C01 for this logic: a closed tableau reached by any legal derivation has no countermodel. -/
+theorem c01_valid_sound (arg : Argument) (t : Tableau)
+    (hd : Deriv Gen.CFOL.sem.soundPart.noQuantPart (trunk Gen.CFOL.sem arg) t) (hclosed : t.allClosed = true)
+    (M : Struct) (hM : M.Interp Gen.CFOL.sem) (e : Env M.D) (w0 : M.W) : ¬ Countermodel Gen.CFOL.sem M e w0 arg :=
+  Props.C01.C01_valid_sound_partial Gen.CFOL.sem sound_core arg t hd hclosed M hM e w0
 
 end Ptx.Gen.Obl.CFOL
